@@ -4,7 +4,7 @@ open Lean NiftyVerif.Proto NiftyVerif.TreeShare
 
 /-!
   C05 handler.  Request {"orig": E, "opt": E, "env": [[key, "p/q"]..]} with
-    E ::= {"v":k} | {"l":id,"a":E} | {"+":[E,E]} | {"*":[E,E]} | {"let":k,"b":E,"in":E}
+    E ::= {"v":k} | {"l":id,"a":E} | {"+":[E,E]} | {"*":[E,E]} | {"pair":[E,E]} | {"let":k,"b":E,"in":E}
   Answer: verdict of the verified checker, its three conjuncts, the key sets, and the exact value of both trees at `env`
   under the harness' leaf library (leaf id i: kind i % 5 — 0: x²+x, 1: x³, 2: x+x, 3: x²−x, 4: 3x).
 -/
@@ -21,6 +21,9 @@ partial def parseEx (j : Json) : Option Ex :=
   | _ =>
   match (field? j "*").bind getArr? with
   | some [a, b] => do some (.mul (← parseEx a) (← parseEx b))
+  | _ =>
+  match (field? j "pair").bind getArr? with
+  | some [a, b] => do some (.pair (← parseEx a) (← parseEx b))
   | _ =>
   match fNat? j "let", field? j "b", field? j "in" with
   | some k, some b, some body => do some (.letE k (← parseEx b) (← parseEx body))
@@ -52,6 +55,7 @@ def handleC05 (j : Json) : Json :=
           ("keys_orig", jNats (dedupSort (Ex.keys e))),
           ("keys_opt", jNats (dedupSort (Ex.keys e'))),
           ("size_orig", jNat (Ex.size e)), ("size_opt", jNat (Ex.size e')),
-          ("val_orig", jRat (Ex.eval (· + ·) (· * ·) leafFn e ρ)),
-          ("val_opt", jRat (Ex.eval (· + ·) (· * ·) leafFn e' ρ))]
+          ("maximal", Json.bool (Ex.maximal e')),
+          ("val_orig", jRat (Ex.eval (· + ·) (· * ·) (· + ·) leafFn e ρ)),
+          ("val_opt", jRat (Ex.eval (· + ·) (· * ·) (· + ·) leafFn e' ρ))]
   | _, _ => jErr "bad-args"
